@@ -492,7 +492,7 @@ func (m *model) merge(x, remote string) (string, []xstate.Violation, error) {
 			newHead, _ := repo.ResolveRef("refs/bugs/" + string(id))
 			st := before[id]
 			if r.Status != e.status {
-				add("c02.report", fmt.Sprintf("status/%s/got-%s", e.scenario, r.String()), "bug %s scenario %s: reported %s (%s), expected %s", id, e.scenario, r.Status, r.Reason, e.status)
+				add("c02.report", fmt.Sprintf("status/%s/got-%s", e.scenario, r.String()), "bug %s scenario %s: reported %q, expected status %d", id, e.scenario, r.String(), e.status)
 			}
 			moved := newHead != st.head
 			if moved != (r.Status == entity.MergeStatusNew || r.Status == entity.MergeStatusUpdated) {
